@@ -4,7 +4,7 @@ from __future__ import annotations
 import operator
 import numpy
 from .common import check
-from .gen import rand_operand, rand_poly, broadcastable_pair, count
+from .gen import nested, rand_operand, rand_poly, broadcastable_pair, count
 from .model import operand, operand_model, obj_map, poly_cmp, canon_name_sort
 from .wf import wf, denotes, snapshot, unchanged, install_poison
 
@@ -28,6 +28,15 @@ def _pair(rng, same_terms=False):
         pa, pb = rng.sample([("q2",), ("q10",), ("q2", "q10"), ("q9", "q11"), ("q1", "q10")], 2)
         return ({"poly": rand_poly(rng, shape=s1, pool=[-1, 0, 1, 2], names_pool=pa, maxterms=2)},
                 {"poly": rand_poly(rng, shape=s2, pool=[-1, 0, 1, 2], names_pool=pb, maxterms=2)})
+    if rng.random() < 0.15:
+        # unsigned / narrow coefficient types on both sides (a difference of coefficients would wrap; a comparison does not),
+        # poly or plain array of the same type on either side
+        dt = rng.choice(["uint8", "uint16", "uint32", "uint64", "int8"])
+        pool = [0, 1, 2, 5, 200] if dt.startswith("u") else [-100, -1, 0, 1, 100]
+        a = {"poly": rand_poly(rng, shape=s1, pool=pool, dtype=dt, maxterms=2)}
+        b = {"poly": rand_poly(rng, shape=s2, pool=pool, dtype=dt, maxterms=2, names=a["poly"]["names"])} if rng.random() < 0.6 else \
+            {"array": nested(rng, tuple(s2), pool), "dtype": dt}
+        return (a, b) if rng.random() < 0.5 else (b, a)
     a = {"poly": rand_poly(rng, shape=s1, pool=[-1, 0, 0, 1, 2])}
     if rng.random() < 0.3:
         # near-equal operands: same exponents, coefficients differing in few places (ties at the top terms)
@@ -54,7 +63,8 @@ def gen_cmp(tier, rng):
        functions=("numpoly.greater", "numpoly.greater_equal", "numpoly.less", "numpoly.less_equal", "numpoly.equal",
                   "numpoly.not_equal", "numpoly.glexsort", "numpoly.align_polynomials"),
        note="bounded: operands <=3 terms, <=3 indeterminates, 13 broadcastable shape pairs, near-equal operands, "
-            "all four sort option settings, operator / numpoly / numpy spellings")
+            "all four sort option settings, operator / numpoly / numpy spellings; a seventh of the pairs in uint8/16/32/64 or int8 "
+            "(poly or plain array on either side)")
 def compare_order(inp):
     import numpoly
     x, y = operand(inp["a"]), operand(inp["b"])
